@@ -1,8 +1,190 @@
-(* C10 property theorems only: each closed by `exact <lemma>` with Print Assumptions beneath. *)
+(* C10 property theorems only: each closed by `exact <lemma>` with Print Assumptions beneath.
+   Vocabulary: Model.v (bfs, traverse, forest, kruskal, adm, adm_nbrs), Proofs_BFS.v (reach_in),
+   Proofs_Refine.v (wf_raw, bfs_tree_spec, children_of), Proofs_Forest.v (conn, sym_nb, tree_tables,
+   traversal_ok, count_seen), Proofs_Check.v (bfs_parent_ok), Proofs_Conn.v (econn, eds, idforest),
+   Proofs_Orient.v (adj), Proofs_KModel.v (kin_ok, kruskal_spec), Run.v (the checkers, sumz). *)
 From Coq Require Import List Arith Bool ZArith.
-Require Import MV.C10.Prelude MV.C10.Gen MV.C10.Model MV.C10.Run MV.C10.Proofs.
+Import ListNotations.
+Require Import MV.C10.Prelude MV.C10.Gen MV.C10.Model MV.C10.Run MV.C10.Proofs_BFS MV.C10.Proofs_Refine
+        MV.C10.Proofs_Trav MV.C10.Proofs_Forest MV.C10.Proofs_Check MV.C10.Proofs_Conn MV.C10.Proofs_Kruskal
+        MV.C10.Proofs_Orient MV.C10.Proofs_KModel MV.C10.Proofs.
 
-Theorem C10_avoid_edge_spec : forall ha ia ab ip ob,
-  avoid_edge ha ia ab ip ob = (ha && ia) || (ab && negb ip && ob).
-Proof. exact avoid_edge_spec. Qed.
-Print Assumptions C10_avoid_edge_spec.
+(* --- tie to the generated source: the decision taken by put_neighbours_in_queue for one neighbour slot
+       (generated l_slot / avoid_edge) is "admissible and not yet seen"; admissible means: not in the
+       exclusion set, and not on the border when avoid_boundary is set on a non-polyline mesh. (full) *)
+Theorem C10_admissibility : forall c seen a,
+  push_target c seen a =
+  match a_tgt a with
+  | Some t => if adm c a && negb (getb seen t) then Some t else None
+  | None => None
+  end.
+Proof. exact push_target_spec. Qed.
+Print Assumptions C10_admissibility.
+
+Theorem C10_admissible_edge : forall c a, c_kind c = KEdge ->
+  (adm c a = true <-> (c_has_avoid c = true -> a_forb a = false) /\
+                      (c_avoid_bound c = true -> c_polyline c = false -> a_bord a = false)).
+Proof. exact adm_edge_spec. Qed.
+Print Assumptions C10_admissible_edge.
+
+Theorem C10_admissible_face_cell : forall c a, c_kind c <> KEdge -> (adm c a = true <-> a_forb a = false).
+Proof. exact adm_other_spec. Qed.
+Print Assumptions C10_admissible_face_cell.
+
+Theorem C10_tree_edge_is_admissible_adjacency : forall c g v t,
+  In t (adm_nbrs c g v) <-> exists a, In a (getl g v) /\ a_tgt a = Some t /\ adm c a = true.
+Proof. exact adm_nbrs_spec. Qed.
+Print Assumptions C10_tree_edge_is_admissible_adjacency.
+
+(* --- C10_bfs_tree (full): for every mesh (neighbour slots g with targets in range), configuration and root,
+       the BFS of edge_sp/face_sp/cell_sp ends within its fuel; reached = reachable from the root in the admissible
+       graph; depth = hop distance (attained and minimal); parent/children mutually inverse; tree edges are
+       admissible adjacencies going one level down; |edges| + 1 = |reached|. See bfs_tree_spec. *)
+Theorem C10_bfs_tree : forall c g root t, wf_raw g -> bfs c g root = Some t -> bfs_tree_spec c g root t.
+Proof. exact bfs_correct. Qed.
+Print Assumptions C10_bfs_tree.
+
+Theorem C10_bfs_defined_iff_root_is_element : forall c g root,
+  (root < length g -> exists t, bfs c g root = Some t) /\ (length g <= root -> bfs c g root = None).
+Proof. exact bfs_defined. Qed.
+Print Assumptions C10_bfs_defined_iff_root_is_element.
+
+(* acyclic, explicitly: no element is its own proper ancestor; every reached element climbs to the root *)
+Theorem C10_bfs_acyclic : forall c g root t, bfs_tree_spec c g root t ->
+  (forall k v, climb (t_parent t) k v = Some v -> k = 0) /\
+  (forall v, getb (t_seen t) v = true -> climb (t_parent t) (depth_of t v) v = Some root).
+Proof. exact bfs_acyclic. Qed.
+Print Assumptions C10_bfs_acyclic.
+
+(* --- C10_traverse (full): both orders, on any tables of a rooted tree: ends within the fuel, each element of
+       the tree exactly once, reported parent = table, parents before children *)
+Theorem C10_traverse : forall n root inT par ch dep,
+  tree_tables n root inT par ch dep ->
+  forall order_is_BFS, exists out, traverse order_is_BFS root ch = (out, true) /\ traversal_ok inT par out.
+Proof. exact traverse_correct. Qed.
+Print Assumptions C10_traverse.
+
+Theorem C10_traverse_bfs_tree : forall c g root t, wf_raw g -> bfs c g root = Some t ->
+  forall order_is_BFS, exists out,
+    traverse order_is_BFS (t_root t) (t_children t) = (out, true) /\
+    traversal_ok (fun v => getb (t_seen t) v = true) (t_parent t) out.
+Proof. exact traverse_bfs_tree. Qed.
+Print Assumptions C10_traverse_bfs_tree.
+
+(* --- soundness of the checkers through which the correspondence accepts the implementation's answer *)
+Theorem C10_checkers_sound : forall c g root t par ch, wf_raw g -> bfs c g root = Some t ->
+  is_bfs_tree (length g) (adm_nbrs c g) root (t_seen t) (t_dist t) par = true ->
+  is_tree_table (length g) par ch = true ->
+  bfs_parent_ok c g root t par /\
+  forall order_is_BFS, exists out,
+    traverse order_is_BFS root ch = (out, true) /\ traversal_ok (fun v => getb (t_seen t) v = true) par out.
+Proof. exact traverse_checked. Qed.
+Print Assumptions C10_checkers_sound.
+
+Theorem C10_edge_checker_sound : forall n par es, is_edge_list n par es = true ->
+  NoDup es /\ length es = length (expected_edges n par) /\ forall e, In e es <-> In e (expected_edges n par).
+Proof. exact is_edge_list_sound. Qed.
+Print Assumptions C10_edge_checker_sound.
+
+(* --- C10_forest (full): on a symmetric admissible adjacency, every tree of the forest is the BFS tree of its
+       root (reached set = component of the root), every element lies in exactly one tree, the roots are distinct
+       and each is the least element of its component (so: exactly one tree per component) *)
+Theorem C10_forest : forall k polyline g,
+  wf_raw g ->
+  let c := forest_cfg k polyline in
+  let g' := forest_graph k g in
+  sym_nb (adm_nbrs c g') ->
+  let f := forest k polyline g in
+  (forall t, In t f -> bfs_tree_spec c g' (t_root t) t) /\
+  (forall v, v < length g' -> count_seen v f = 1) /\
+  NoDup (forest_roots f) /\
+  (forall t w, In t f -> conn (adm_nbrs c g') (t_root t) w -> t_root t <= w).
+Proof. exact forest_correct. Qed.
+Print Assumptions C10_forest.
+
+(* --- every decision the translator reads off the source has the meaning the model relies on (full):
+       a changed operator / pop side / forwarded argument in the source changes Gen.v and breaks this proof *)
+Theorem C10_generated_decisions :
+  (forall k, let ops := ops_of k in
+     l_popleft ops = true /\ (forall s, l_skip ops s = s) /\
+     (forall dv dnv, l_better ops dv dnv = onat_lt (onat_add dv 1) dnv) /\
+     (forall dv, l_newdist ops dv = onat_add dv 1) /\ l_root_dist ops = 0 /\
+     (forall pn, l_child ops false pn = negb pn) /\ l_child ops true true = false) /\
+  (trav_popleft (trav_is_bfs true) = true /\ trav_popleft (trav_is_bfs false) = false) /\
+  (kr_sort_reverse = false /\ (forall b, kr_take b = negb b) /\
+   (forall m1 m2 l c, kr_weight m1 m2 l c = if m1 then 1%Z else if m2 then l else c) /\
+   (forall ab ip, kr_all_edges ab ip = negb ab || ip) /\ (forall b, kr_keep b = negb b) /\
+   (forall b, kr_child_keep b = negb b)) /\
+  ((forall b, forest_new_root b = negb b) /\ forest_forwards_exclusions KFace = true /\
+   (forall k p, forest_cfg k p = mkCfg k false false p)).
+Proof. exact generated_decisions. Qed.
+Print Assumptions C10_generated_decisions.
+
+(* --- Kruskal: which edges are candidates (admissible) *)
+Theorem C10_kruskal_candidates : forall i e,
+  In e (kr_candidates i) <->
+  e < length (ki_edges i) /\ (ki_avoid_bound i = true -> ki_polyline i = false -> getb (ki_bord i) e = false).
+Proof. exact kr_candidates_spec. Qed.
+Print Assumptions C10_kruskal_candidates.
+
+(* --- C10_kruskal (full): the edge list is a spanning forest of the admissible edges (members are candidates,
+       built by bridging additions = acyclic, connects exactly what the candidates connect, in every component);
+       C10_kruskal_minimal (full, inside kruskal_spec.ks_min): its weight is minimal among all spanning forests of
+       the candidates, for arbitrary integer weights (ties and negatives included);
+       parent/children orient exactly the root's component (tree_tables on econn-from-root, nothing outside,
+       every parent edge is a forest edge, every forest edge of the component is a parent edge);
+       the orientation pass ends within its fuel. *)
+Theorem C10_kruskal : forall i kt, kin_ok i -> kruskal i = Some kt -> kruskal_spec i kt.
+Proof. exact kruskal_correct. Qed.
+Print Assumptions C10_kruskal.
+
+Theorem C10_kruskal_minimal : forall i kt, kin_ok i -> kruskal i = Some kt ->
+  forall F, idforest (edge_at (ki_edges i)) F -> incl F (kr_candidates i) ->
+            (forall u v, econn (eds (edge_at (ki_edges i)) (kr_candidates i)) u v ->
+                         econn (eds (edge_at (ki_edges i)) F) u v) ->
+            (sumz (kr_key i) (kt_ids kt) <= sumz (kr_key i) F)%Z.
+Proof. exact kruskal_minimal_model. Qed.
+Print Assumptions C10_kruskal_minimal.
+
+Theorem C10_kruskal_defined_iff_root_is_vertex : forall i, ki_root i < ki_n i -> exists kt, kruskal i = Some kt.
+Proof. exact kruskal_some. Qed.
+Print Assumptions C10_kruskal_defined_iff_root_is_vertex.
+
+(* acyclicity in its order-free form: in a forest (built by bridging additions) every edge is a bridge, and
+   conversely a list in which every edge is a bridge is such a forest *)
+Theorem C10_forest_iff_every_edge_is_a_bridge : forall (ed : nat -> nat * nat) T,
+  idforest ed T <->
+  (forall l1 e l2, T = l1 ++ e :: l2 -> ~ econn (eds ed (l1 ++ l2)) (fst (ed e)) (snd (ed e))).
+Proof. exact forest_iff_bridges. Qed.
+Print Assumptions C10_forest_iff_every_edge_is_a_bridge.
+
+(* --- soundness of the Kruskal checker: an edge list accepted by is_spanning_forest whose weight equals the
+       model's is itself a minimum spanning forest of the admissible edges *)
+Theorem C10_kruskal_checker_sound : forall i kt tl ids,
+  kin_ok i -> kruskal i = Some kt ->
+  is_spanning_forest (ki_n i) (ki_edges i) (kr_candidates i) tl = true ->
+  ids_of (ki_edges i) (kr_candidates i) tl = Some ids ->
+  sumz (kr_key i) ids = sumz (kr_key i) (kt_ids kt) ->
+  idforest (edge_at (ki_edges i)) ids /\ incl ids (kr_candidates i) /\
+  (forall u v, econn (eds (edge_at (ki_edges i)) (kr_candidates i)) u v <-> econn (eds (edge_at (ki_edges i)) ids) u v) /\
+  forall F, idforest (edge_at (ki_edges i)) F -> incl F (kr_candidates i) ->
+            (forall u v, econn (eds (edge_at (ki_edges i)) (kr_candidates i)) u v -> econn (eds (edge_at (ki_edges i)) F) u v) ->
+            (sumz (kr_key i) ids <= sumz (kr_key i) F)%Z.
+Proof. exact checked_kruskal_minimal. Qed.
+Print Assumptions C10_kruskal_checker_sound.
+
+(* the parent/children tables the checker recomputes from an accepted edge list (and compares with the
+   implementation's) orient exactly the root's component of that edge list *)
+Theorem C10_kruskal_orientation_checker_sound : forall es n cand tl ids root,
+  ids_in (edge_at es) n cand -> root < n ->
+  is_spanning_forest n es cand tl = true -> ids_of es cand tl = Some ids ->
+  exists par ch dep,
+    orient n (nb_of n tl) root = (par, ch, true) /\
+    let L := eds (edge_at es) ids in
+    let inT := fun v => econn L root v in
+    tree_tables n root inT par ch dep /\
+    (forall v, ~ inT v -> geto par v = None /\ getl ch v = []) /\
+    (forall v p, geto par v = Some p -> inT v /\ adj L p v) /\
+    (forall u w, inT u -> adj L u w -> geto par w = Some u \/ geto par u = Some w).
+Proof. exact orient_checked. Qed.
+Print Assumptions C10_kruskal_orientation_checker_sound.
